@@ -180,6 +180,20 @@ func (c *client) sendID(ctx context.Context) (errc chan error) {
 
 func (c *client) run() (err error) {
 	c.sendPipe(c.encryptPipe(c.packPipe(c.dispatch(c.decodePipe(c.decryptPipe(c.readPipe()))))))
+	// run returns on the first reported error but the pipes keep running until c.ctx ends:
+	// keep taking what they report, otherwise the stage that reports the next error blocks in
+	// reportError and every later frame of the connection is lost
+	defer func() {
+		go func() {
+			for {
+				select {
+				case <-c.ctx.Done():
+					return
+				case <-c.errc:
+				}
+			}
+		}()
+	}()
 	for {
 		var ok bool
 		select {
